@@ -108,6 +108,11 @@ def run(rep: Report, tier: str) -> None:
     sub7 = Report("C07", tier)
     c07.run(sub7, tier)
     rep.absorb(sub7, rh, ("C07.d",), "balances cut on the entry's own date like every other filter (an asset with lots but no balance makes open_positions fail)")
+    # every sheet a taxable event can be routed to exists in the shipped template (a missing one is a KeyError in the tax report): C14.a/b restated
+    rj = rep.rule("C16.j", "tax-report routing: every transaction type a taxable event can carry has a sheet that the template contains (C14.a, C14.b restated)", floor=20)
+    sub14 = Report("C14", tier)
+    c14.run(sub14, tier)
+    rep.absorb(sub14, rj, ("C14.a", "C14.b"), "tax report routing tables")
     engine.check_heap_typestate(rep, rh)
     engine.check_schedule_traversal(rep, rh)
     engine.check_chronological_input(rep, rh)
